@@ -25,6 +25,7 @@ type SMPRun struct {
 	Len     int    `json:"len,omitempty"`
 	Restart int    `json:"restart,omitempty"` // 1: the initiator starts again before the answer; 2: the responder starts its own run instead of answering
 	Abandon bool   `json:"abandon,omitempty"` // before this run: a request is left unanswered, the session is ended by both and a new one keyed
+	NewKey  bool   `json:"newkey,omitempty"`  // before this run: the responder re-installs its client (new conversation, new long-term key) and opens a new session
 }
 
 // C11Script is a sequence of runs in one session.
@@ -138,6 +139,29 @@ func runC11(sc *C11Script) *sim.Outcome {
 				return o
 			}
 			o.Class("unanswered-request-then-new-session")
+		}
+		if run.NewKey {
+			// the secret binds both long-term keys of *this* session: after the peer comes back with another key, the
+			// keys that count are the new ones
+			ki := (w.P[b].KeyI + 1 + ri) % sim.PoolSize()
+			for ki == w.P[a].KeyI || ki == w.P[b].KeyI {
+				ki = (ki + 1) % sim.PoolSize()
+			}
+			np := sim.NewParty(sim.PartyOpts{Name: w.P[b].Name, Seed: sc.Cfg.SeedB*3 + uint64(ri)*2 + 90001, Pol: sc.Cfg.pol(), KeyI: ki})
+			w.P[b] = np
+			s.nDraw[b] = 0
+			if k, err := ref.ParseDSAPrivate(sim.PoolKeyBytes(ki)); err == nil {
+				s.Obs.Long[b] = k.PubBytes()
+			}
+			w.Q[0], w.Q[1] = nil, nil
+			w.AgeClock(a, 3*60e9)
+			w.Query(b)
+			s.Exec(SOp{K: "flush"})
+			if !w.P[0].C.IsEncrypted() || !w.P[1].C.IsEncrypted() {
+				o.Discard = true
+				return o
+			}
+			o.Class("peer-came-back-with-a-new-key")
 		}
 		na, nb := len(w.P[a].SMP), len(w.P[b].SMP)
 		s.asked = [2]bool{}
@@ -346,6 +370,7 @@ func genSMPRun(rt *rapid.T) SMPRun {
 	r.Traffic = []int{rapid.IntRange(0, 2).Draw(rt, "t0"), rapid.IntRange(0, 2).Draw(rt, "t1"), rapid.IntRange(0, 2).Draw(rt, "t2")}
 	r.Len = rapid.IntRange(0, 65000).Draw(rt, "len")
 	r.Abandon = rapid.IntRange(0, 5).Draw(rt, "abandon") == 0
+	r.NewKey = rapid.IntRange(0, 4).Draw(rt, "newkey") == 0
 	if rapid.IntRange(0, 2).Draw(rt, "dorestart") == 0 {
 		r.Restart = rapid.IntRange(1, 2).Draw(rt, "restart")
 	}
